@@ -76,6 +76,7 @@ func runC05(p *load.Program, r *oblig.Report) {
 	c05TimeSiblings(p, r)
 	c05RelativeInnerOffsets(p, r)
 	c05LengthKeptPerPage(p, r, "C05.R17 record sets larger than one page keep their page offsets")
+	c04RecordVersionBoundary(p, r, "C05.R19 records are produced in the format the Produce version requires (C04.R16)")
 	c04Format0NoTimestamp(p, r, "C05.R18 message format 0 has no timestamp field (C04.R17)")
 	c05VersionPerBatch(p, r)
 }
